@@ -83,7 +83,7 @@ package parser
 //@ requires four: len(delims) == 4
 //@ requires nonempty: forall(k, 0, 4, delims[k] != "")
 //@ assigns alloc S$Str, alloc S$Val
-//@ at call Sprintf #1 before assert format: arg0 == "%s-?\\s*(.+?)\\s*-?%s|%s-?\\s*(\\w+)(?:\\s+((?:%v)+?))?\\s*-?%s"
+//@ at call Sprintf #1 before assert format: arg0 == "%s-?\\s*((?s:.+?))\\s*-?%s|%s-?\\s*(\\w+)(?:\\s+((?:%v)+?))?\\s*-?%s"
 //@ at call Sprintf #1 before assert operands: len(arg1) == 5 && arg1[0] == box(regexp.QuoteMeta(delims[0]), string) && arg1[1] == box(regexp.QuoteMeta(delims[1]), string) && arg1[2] == box(regexp.QuoteMeta(delims[2]), string) && arg1[4] == box(regexp.QuoteMeta(delims[3]), string)
 // the characters of the tag-right delimiter enter the pattern quoted (as literals)
 //@ ghost q Str = ""
